@@ -13,6 +13,7 @@
 //           DA <action label> <particle> <count>      (ActionDiagnostic, summed over streams)
 //           DS <particle> <bin> <count>               (StepDiagnostic)
 //           K  <detector> <hex double>                (SimpleCalo total, accumulated over streams in stream order)
+//           MR/ME/KR/EN  content of the process-wide MemRegistry, KernelRegistry, Environment after the run
 //           X  <message>                              (exception in a stream)
 // std::thread (not OpenMP) so that ThreadSanitizer sees every synchronisation.
 #include <algorithm>
@@ -34,6 +35,9 @@
 #include "corecel/io/Logger.hh"
 #include "corecel/math/ArrayUtils.hh"
 #include "corecel/sys/ActionRegistry.hh"
+#include "corecel/sys/Environment.hh"
+#include "corecel/sys/KernelRegistry.hh"
+#include "corecel/sys/MemRegistry.hh"
 #include "celeritas/Types.hh"
 #include "celeritas/geo/GeoParams.hh"
 #include "celeritas/global/CoreParams.hh"
@@ -360,6 +364,27 @@ int main(int argc, char** argv)
                 for (std::size_t b = 0; b < steps[p].size(); ++b)
                     if (steps[p][b])
                         std::cout << "DS " << p << ' ' << b << ' ' << steps[p][b] << '\n';
+        }
+        {
+            // process-wide registries (documented as setup-only / not thread safe): their content
+            // after the run must not depend on whether the streams were built concurrently
+            auto const& mr = celeritas::mem_registry();
+            std::cout << "MR " << mr.size() << ' ' << mr.depth() << '\n';
+            for (MemUsageId::size_type i = 0; i < mr.size(); ++i)
+            {
+                auto const& e = mr.get(MemUsageId{i});
+                std::string lab = e.label;
+                std::replace(lab.begin(), lab.end(), ' ', '_');
+                std::cout << "ME " << i << ' ' << (lab.empty() ? std::string("-") : lab) << ' '
+                          << (e.parent_index ? static_cast<long>(e.parent_index.unchecked_get()) : -1L) << '\n';
+            }
+            std::cout << "KR " << celeritas::kernel_registry().num_kernels() << '\n';
+            std::vector<std::string> keys;
+            for (auto const& kv : celeritas::environment().ordered_environment())
+                keys.push_back(kv.get().first);
+            std::sort(keys.begin(), keys.end());
+            for (auto const& k : keys)
+                std::cout << "EN " << k << '\n';
         }
         {
             auto tot = calo->calc_total_energy_deposition();
